@@ -202,6 +202,18 @@ func allStrings(alphabet string, maxLen int, f func(string)) {
 }
 
 func runC13(c *ctx) {
+	if c.tier == "replay" {
+		f := strings.Fields(readReplay(c).Input)
+		if len(f) >= 1 {
+			data := ""
+			if len(f) > 1 {
+				b, _ := hex.DecodeString(f[1])
+				data = string(b)
+			}
+			emitC13(c, f[0][0], data)
+		}
+		return
+	}
 	r := c.r
 	const moveAlpha = "abh18 9FSC<>+-!?*'x0i"
 	const srvAlpha = "PMWC AH19a8 0-IZ"
